@@ -24,13 +24,43 @@ pub fn scenarios(tier: &str) -> Vec<Scenario> {
     let mut opts = Opts::new("C02", "twins");
     opts.twin_always = true;
     opts.obs_twice = true;
+    // a replica that was restarted at a quiescent point (after a commit, a clearCaches or a reorg) against one that
+    // was not: the restarted one only has what is on disk, the other also what it kept in memory; the calls whose
+    // answer depends on that are the reorgs at the edge of the window
+    let mut deep = start_with_s();
+    deep.push(Step::Mine(W + 1));
+    deep.push(Step::Commit);
+    deep.extend(block(vec![s_set(0, 0, 1)]));
+    let restart_alpha = vec![
+        m_block("B(set0=1)", vec![s_set(0, 0, 1)]),
+        m_mine(1),
+        m_mine(W - 1),
+        m_commit(0),
+        mac("K", Kind::Dev(0), vec![Step::Clear]),
+        mac("X", Kind::Dev(2), vec![Step::Restart]),
+        m_reorg(1, RTarget::Back(1)),
+        m_reorg(1, RTarget::Back(W - 1)),
+        m_reorg(1, RTarget::Back(W)),
+        m_reorg(1, RTarget::Back(W + 1)),
+    ];
+    let mut ropts = Opts::new("C02", "restarted-replica");
+    ropts.twin_always = true;
     vec![Scenario {
+        name: "restarted-replica".into(),
+        opts: ropts,
+        starts: vec![("committed at W+2, one uncommitted block".into(), deep)],
+        alphabet: restart_alpha,
+        bounds: Bounds { depth: if thorough { 4 } else { 3 }, dev: vec![2, 1, 1], dev_total: 3 },
+        weight: 1.0,
+        network: "regtest".into(),
+        traces: true,
+    }, Scenario {
         name: "twins".into(),
         opts,
         starts: vec![("S deployed in block 1".into(), start_with_s())],
         alphabet: alpha,
         bounds: Bounds { depth: if thorough { 5 } else { 4 }, dev: vec![2, 1], dev_total: 2 },
-        weight: 1.0,
+        weight: 3.0,
         network: "regtest".into(),
         traces: true,
     }]
